@@ -57,7 +57,9 @@ META = {
         "parts come from split('.', 1) guarded by `'.' in entry` resp. from (entry, None), or from entry.partition('.') (whose bare "
         "sentinel is '', and whose separator item is the dot test), or the whole entry is compared with the spelled-out forms type / "
         "f'{type}.{subtype}' / f'{type}.*'; a disjunctive condition is a case split whose alternatives are judged one by one; "
-        "`next((True for e in L if ...), False)` counts as the scan like any(); conditional expressions are branches and split / predicate helpers are followed with parameters substituted. "
+        "`next((True for e in L if ...), False)` counts as the scan like any(); without a scan, look-ups of the spelled-out forms "
+        "in the whole list (`type in S or f'{type}.{subtype}' in S or f'{type}.*' in S`, S the list or a set of it) are judged the "
+        "same way: the forms looked up must be exactly the three; conditional expressions are branches and split / predicate helpers are followed with parameters substituted. "
         "R5: the value returned by create_warning (None when suppressed) is only discarded, returned by a wrapper whose call sites "
         "are judged, or put into a node list under a presence test (`[x] if x else []`, `if x: out.append(x)`, `x or []`, or a helper "
         "doing that with its parameter); a branch with other statements, an unguarded list placement (None among the nodes) and "
@@ -1496,6 +1498,17 @@ class _Forms:
             return None
         return got if pol else ("loop-unknown", f"not {unparse(call)}")
 
+    def _covers(self, e: ast.expr, depth: int = 0) -> str:
+        """_covers_list, also through a local bound once (``suppressed = frozenset(suppress_warnings)``)."""
+        if isinstance(e, ast.Name) and e.id != self.p_list and depth < 3 and not self.fi.is_lambda:
+            stores = [n for n in self.fi.local_nodes() if isinstance(n, ast.Name) and n.id == e.id and isinstance(n.ctx, ast.Store)]
+            if len(stores) == 1 and isinstance(parent(stores[0]), ast.Assign) and len(parent(stores[0]).targets) == 1:
+                return self._covers(parent(stores[0]).value, depth + 1)
+            return "unknown"
+        if isinstance(e, ast.Call) and isinstance(e.func, ast.Name) and e.func.id in _WHOLE_WRAPPERS and len(e.args) == 1:
+            return self._covers(e.args[0], depth + 1)
+        return _covers_list(e, self.p_list)
+
     def _whole_form(self, e: ast.expr) -> str | None:
         """``type`` / ``f"{type}.{subtype}"`` / ``f"{type}.*"`` (also with +): the three accepted entries, spelled out."""
         def parts(x: ast.expr) -> list | None:
@@ -1574,7 +1587,7 @@ class _Forms:
     def classify(self, test: ast.expr, pol: bool) -> tuple:
         """One branch fact -> (kind, ...):
         ("type", name, holds) name ==/!= warning type; ("sub", name, values, holds); ("dot", holds) '.' in entry;
-        ("bare-member", holds) warning type in suppress list; ("harmless", why); ("harmless-entry", why);
+        ("member", forms, holds) a spelled-out form is looked up in the whole suppress list; ("harmless", why); ("harmless-entry", why);
         ("or", [facts]) a disjunction; ("and", [facts]) a conjunction (from a followed helper);
         ("loop-unknown", text) / ("inv-unknown", text)."""
         core, flip = _strip_not(test)
@@ -1598,8 +1611,11 @@ class _Forms:
         if isinstance(test, ast.Compare) and len(test.ops) == 1 and isinstance(test.ops[0], (ast.In, ast.NotIn)):
             if is_const(self.lit(test.left), ".") and _is_name(test.comparators[0], self.entry):
                 return ("dot", pol == isinstance(test.ops[0], ast.In))
-            if _is_name(test.left, self.p_type) and _is_name(test.comparators[0], self.p_list):
-                return ("bare-member", pol == isinstance(test.ops[0], ast.In))
+            form = self._whole_form(test.left)
+            if form is not None and self._covers(test.comparators[0]) == "whole":
+                # set / list look-up: `type in suppressed`, `f"{type}.{subtype}" in suppressed`, `f"{type}.*" in suppressed`
+                self.saw_whole = True
+                return ("member", {form}, pol == isinstance(test.ops[0], ast.In))
         if isinstance(test, ast.Name) and test.id in self.partition_seps:
             return ("dot", pol)
         if isinstance(test, ast.Compare) and len(test.ops) == 1 and isinstance(test.left, ast.Name) and test.left.id in self.partition_seps and isinstance(test.ops[0], (ast.Eq, ast.NotEq)) and isinstance(self.lit(test.comparators[0]), ast.Constant) and self.lit(test.comparators[0]).value in (".", ""):
@@ -1650,7 +1666,7 @@ def _f_unknown(f: tuple) -> bool:
 
 
 def _f_loopdep(f: tuple) -> bool:
-    return f[0] in ("type", "sub", "dot", "whole", "loop-unknown", "harmless-entry", "type-loose", "sub-loose") or (f[0] in ("or", "and") and any(_f_loopdep(x) for x in f[1]))
+    return f[0] in ("type", "sub", "dot", "whole", "member", "loop-unknown", "harmless-entry", "type-loose", "sub-loose") or (f[0] in ("or", "and") and any(_f_loopdep(x) for x in f[1]))
 
 
 def _f_implies(f: tuple, kind: str) -> bool:
@@ -1702,10 +1718,13 @@ def _check_forms(isw: FunctionInfo, rep: Report, dotfree: bool, resolver=None) -
         comp = gen_ret.value.args[0].generators[0]  # type: ignore[union-attr]
         it, entry, body = comp.iter, comp.target.id, [gen_ret.value]
         scan_site = msite(gen_ret)
+    elif not loops and not gens:
+        # no scan: the answer may be computed by look-ups of the spelled-out forms in the whole list (decided below)
+        it, entry, body, scan_site = None, "\0entry", [], site
     else:
         rep.error(R, f"_is_suppressed_warning: expected one `for <entry> in <suppress list>` loop or one `return any(... for <entry> in <suppress list>)`, found {len(loops)} / {len(gens)} (rewritten in an unknown idiom)")
         return
-    cover = _covers_list(it, p_list)
+    cover = _covers_list(it, p_list) if it is not None else "whole"
     if cover == "part":
         viol.append((kc + "|loop range", scan_site, f"the scan ranges over `{unparse(it)}`, a part of the suppress list: the other entries are never consulted"))
     elif cover == "unknown":
@@ -1721,6 +1740,10 @@ def _check_forms(isw: FunctionInfo, rep: Report, dotfree: bool, resolver=None) -
     # classify every condition first: followed helpers contribute their roles and split sites
     rets = [n for n in isw.local_nodes() if isinstance(n, ast.Return)]
     ret_facts = {id(r): guard_facts(r) for r in rets}
+    for r in rets:  # a computed answer (`return a in S or b in S`): classify it now, so look-ups are known below
+        if r.value is not None and not isinstance(r.value, ast.Constant) and not in_body(r):
+            for tt, pp in flow_facts(r.value, True):
+                fm.classify(tt, pp)
     gen_facts: list[tuple] = []
     if gen_ret is not None:
         g0 = gen_ret.value.args[0]  # type: ignore[union-attr]
@@ -1778,6 +1801,7 @@ def _check_forms(isw: FunctionInfo, rep: Report, dotfree: bool, resolver=None) -
 
     covered: set[str] = set()  # accepted forms established by the positive answers: bare / sub / star
     judged: list[ast.Return] = []
+    lookups: list[ast.Return] = []  # positive answers by look-up of a spelled-out form (no scan needed)
 
     def judge_positive(r: ast.Return, fs: list[tuple], scanning: bool) -> None:
         """A positive answer under the facts ``fs``; a disjunctive condition is a case split: every alternative is judged."""
@@ -1802,9 +1826,12 @@ def _check_forms(isw: FunctionInfo, rep: Report, dotfree: bool, resolver=None) -
 
     def judge_alternative(r: ast.Return, fs: list[tuple], scanning: bool) -> None:
         """One conjunction of facts under which the answer is positive: which of the three forms does it accept?"""
-        if not scanning:
-            if any(_f_implies(f, "bare-member") for f in fs):
-                return  # `if type in suppress_list: return True` - the bare type form, decided early
+        members = [f for f in fs if f[0] == "member" and f[2]]
+        if members and not scanning:
+            # `type in suppressed`, `f"{type}.{subtype}" in suppressed`, ...: a look-up of a spelled-out form in the whole list
+            covered.update(set.intersection(*[set(f[1]) for f in members]))
+            lookups.append(r)
+            return
         wholes = [f for f in fs if f[0] == "whole" and f[2]]
         if wholes:
             # `entry == type`, `entry == f"{type}.{subtype}"`, `entry in (type, f"{type}.*", ...)`: forms spelled out
@@ -1901,9 +1928,13 @@ def _check_forms(isw: FunctionInfo, rep: Report, dotfree: bool, resolver=None) -
         # a negative (or not constantly positive) answer
         if not in_body(r):
             if kind == "expr":
-                unsup.append(f"`{short(r, 50)}` outside the loop: answer computed in an unknown idiom")
-            elif any(f[0] not in ("harmless", "bare-member") for f in fs):
-                unsup.append(f"negative answer outside the loop under condition(s) not understood: {'; '.join(_f_text(f) for f in fs if f[0] not in ('harmless', 'bare-member'))[:100]}")
+                vfacts = _flat([fm.classify(tt, pp) for tt, pp in flow_facts(r.value, True)])
+                if vfacts and all(f[0] == "member" or (f[0] == "or" and f[1] and all(x[0] == "member" for x in f[1])) for f in vfacts) and not any(f[0] not in ("harmless", "member") for f in fs):
+                    judge_positive(r, [f for f in fs if f[0] != "harmless"] + vfacts, False)  # `return a in S or b in S`
+                else:
+                    unsup.append(f"`{short(r, 50)}` outside the loop: answer computed in an unknown idiom")
+            elif any(f[0] not in ("harmless", "member") for f in fs):
+                unsup.append(f"negative answer outside the loop under condition(s) not understood: {'; '.join(_f_text(f) for f in fs if f[0] not in ('harmless', 'member'))[:100]}")
             continue
         val_names = _names(r.value) if r.value is not None else set()
         k = f"{kc}|{short(r, 60)}"
@@ -1914,15 +1945,17 @@ def _check_forms(isw: FunctionInfo, rep: Report, dotfree: bool, resolver=None) -
         elif unknown_f or kind == "expr":
             unsup.append(f"`{short(r, 40)}` inside the loop under loop-invariant condition(s) not understood: {'; '.join(_f_text(f) for f in unknown_f)[:100]}")
     # the positive answers together must accept the three forms
-    if judged and not unsup:
-        last = judged[-1]
+    if it is None and not lookups and not viol and not unsup:
+        unsup.append("neither a scan of the suppress list (`for <entry> in <suppress list>` / `any(...)`) nor look-ups of the spelled-out forms found (rewritten in an unknown idiom)")
+    if (judged or lookups) and not unsup:
+        last = (judged or lookups)[-1]
         if "bare" not in covered:
             viol.append((kf + "|bare type", msite(last), "no positive answer accepts an entry without a dot (the sub-target a bare entry gets is not among the accepted values): the bare type no longer suppresses"))
         if "sub" not in covered:
             viol.append((kf + "|sub-target values|subtype form", msite(last), "no positive answer accepts `<subtype>` as the part after the dot: the `type.subtype` form is no longer accepted"))
         if "star" not in covered:
             viol.append((kf + "|sub-target values|star form", msite(last), "no positive answer accepts '*' as the part after the dot: the `type.*` form is no longer accepted"))
-    positives_ok = len(judged)
+    positives_ok = len(judged) + len(lookups)
     for b in breaks:
         fs = guard_facts(b)
         after_neg = all(rkind(r) == "neg" for r in rets if not in_body(r))
@@ -2721,6 +2754,29 @@ def _doctitle_fact(corpus: Corpus) -> bool:
     return corpus.cache("c14-doctitle-fact", make)
 
 
+def _title_first_fact(corpus: Corpus) -> bool:
+    """Sibling fact, re-read from the installed docutils: TitlePromoter.promote_title rebuilds the parent as
+    ``section[:1] + node[:index] + section[1:]`` - a promoted title is the root's FIRST child, before any leading
+    message node; and only promotion puts a title directly below the root."""
+
+    def make() -> bool:
+        try:
+            m = corpus.sibling_module("docutils.transforms.frontmatter")
+            f = m.classes["TitlePromoter"].methods["promote_title"]
+        except Exception:
+            return False
+        for n in f.local_nodes():
+            if isinstance(n, ast.Assign) and len(n.targets) == 1 and isinstance(n.targets[0], ast.Subscript) and isinstance(n.targets[0].slice, ast.Slice) and n.targets[0].slice.lower is None and n.targets[0].slice.upper is None:
+                v = n.value
+                while isinstance(v, ast.BinOp) and isinstance(v.op, ast.Add):
+                    v = v.left
+                if unparse(v) == "section[:1]":
+                    return True
+        return False
+
+    return corpus.cache("c14-title-first-fact", make)
+
+
 def _reads_title_attr(e: ast.expr, roots: dict[str, str]) -> bool:
     """``<root>["title"]`` / ``<root>.get("title"[, d])``."""
     if isinstance(e, ast.Subscript) and is_const(e.slice, "title") and unparse(e.value) in roots:
@@ -2988,7 +3044,9 @@ def r8_messages_are_not_content(corpus: Corpus, rep: Report, tier: str):
             if k in seen:
                 continue
             seen.add(k)
-            if how == "is counted" and not filt and isinstance(n, ast.Call) and _is_emptiness_guard(n, base):
+            if how.startswith("has an item picked") and not filt and conts[base] == "the document root" and is_const(n.slice, 0) and (dotted(parent(n).args[1]) or "").split(".")[-1] == "title" and _title_first_fact(corpus):
+                rep.ok(R, k, fi.module.site(n), "root[0] tested for nodes.title: docutils puts a promoted title first, before any message node, and nothing else puts a title below the root")
+            elif how == "is counted" and not filt and isinstance(n, ast.Call) and _is_emptiness_guard(n, base):
                 rep.ok(R, k, fi.module.site(n), "only guards the subscript of a positional class test against a non-message class: message nodes alone fail that test as an empty list fails the guard")
             elif filt:
                 rep.ok(R, k, fi.module.site(n), "system_message children are filtered out first")
@@ -3165,6 +3223,10 @@ def mutants(corpus: Corpus):
     if loop is not None:
         ifst = find_node(f, lambda n: isinstance(n, ast.If) and any(x is loop for x in ancestors(n)) and len(n.body) == 1 and isinstance(n.body[0], ast.Return) and is_const(n.body[0].value, True) and isinstance(n.test, ast.BoolOp) and isinstance(n.test.op, ast.And) and len(n.test.values) == 2)
         sentinel = find_node(f, lambda n: isinstance(n, ast.Assign) and isinstance(n.value, ast.Tuple) and len(n.value.elts) == 2 and is_const(n.value.elts[1], None) and any(x is loop for x in ancestors(n)))
+        # (seed class) the scan rewritten as set look-ups of the spelled-out forms, the 'type.*' wildcard forgotten
+        i0 = ind_of(w, loop)
+        pt_, ps_ = f.params[0], f.params[1]
+        out.append(Mutant("c14-set-lookup-without-wildcard", "C14.R4", w.rel, splice(w.src, loop, f"suppressed_ = frozenset({p_list})\n{i0}return {pt_} in suppressed_ or f'{{{pt_}}}.{{{ps_}}}' in suppressed_"), expect="star form"))
         out.append(Mutant("c14-first-entry-only", "C14.R4", w.rel, splice(w.src, loop.iter, f"{p_list}[:1]"), expect="loop range"))
         if sentinel is not None:
             out.append(Mutant("c14-bare-sentinel-not-accepted", "C14.R4", w.rel, splice(w.src, sentinel.value.elts[1], '""'), expect="bare type"))
